@@ -9,7 +9,7 @@ from . import common
 from .common import Leaf
 
 REQUIRED_WITNESSES = ['C', 'P', 'E:HeaderName', 'E:Token']
-BOUNDS = {'quick': 'every split point k of: parse_headers buffers to 8 bytes; requests/responses = concrete start line + header blocks to 6 bytes (header options symbolic to 5); fully symbolic request buffers to 7 and response buffers to 10 bytes; chunk sizes to 6 bytes; complete heads with a 2-3 byte symbolic window inside a value / target / name followed by 40 body bytes, split at every third offset from the window to the end, on the word-at-a-time and the runtime-dispatch build',
+BOUNDS = {'quick': 'every split point k of: parse_headers buffers to 8 bytes; requests/responses = concrete start line + header blocks to 6 bytes (header options symbolic to 5); fully symbolic request buffers to 7 and response buffers to 10 bytes; chunk sizes to 6 bytes; complete heads with a 2-3 byte symbolic window inside a value / target / name followed by 40 body bytes, split at every 7th offset from the window to the end, on the word-at-a-time and the runtime-dispatch build',
           'thorough': 'parse_headers to 10; message header blocks to 8 (options symbolic to 7); start lines to 9 / 13; chunk sizes to 8'}
 OUTSIDE = 'longer buffers; delivery histories are covered through the prefix relation (every chunking of a stream is a chain of prefixes)'
 EXPLANATION = 'for each split k: first = parse(B[..k]), second = parse(B); first Complete(n) => second identical (n, fields, headers); first Err(e) => second Err(e); first Partial with a start-line field set => second reports the same field'
@@ -91,15 +91,15 @@ def jobs(tier, seed):
             for n in ns:
                 s = mk(n); s['variant'] = variant
                 total = len(s['prefix']) + s['nsym'] + len(s['suffix']); lo = len(s['prefix']) + s['nsym']
-                for k in range(lo, total, 1 if tier == 'thorough' else 3):
+                for k in range(lo, total, 1 if tier == 'thorough' else 7):
                     jb = product_job(P, f'{name}-{variant}-S{n}-k{k}', G, s, budget, bound.format(n=n) + f' ({variant}), split at {k}', family=f'{name}-{variant}', mandatory=False,
                                      fn='mirse.props.c02.leaf', extra={'split': k}, validate_every=60, variants=[variant])
                     jb.small = True; out.append(jb)
         return out
     vs = ('swar-rel', 'x86-rt')
-    J += fam2('value-then-body', lambda n: sc('headers', n, prefix=b'T: a', suffix=b'\r\n\r\n' + BODY, cap=1), range(2, T(tier, 3, 4) + 1), bud,
+    J += fam2('value-then-body', lambda n: sc('headers', n, prefix=b'T: a', suffix=b'\r\n\r\n' + BODY, cap=1), range(2, T(tier, 2, 4) + 1), bud,
               'parse_headers "T: a" + {n} symbolic bytes + CRLFCRLF + 40 body bytes', vs)
-    J += fam2('target-then-body', lambda n: sc('req', n, prefix=b'GET /', suffix=b' HTTP/1.1\r\n\r\n' + BODY, api='parse', cap=1), range(2, T(tier, 3, 4) + 1), bud,
+    J += fam2('target-then-body', lambda n: sc('req', n, prefix=b'GET /', suffix=b' HTTP/1.1\r\n\r\n' + BODY, api='parse', cap=1), range(2, T(tier, 2, 4) + 1), bud,
               'request "GET /" + {n} symbolic bytes + " HTTP/1.1" CRLFCRLF + 40 body bytes', vs)
     J += fam2('name-then-body', lambda n: sc('resp', n, prefix=RESP_LINE + b'N', suffix=b': v\r\n\r\n' + BODY, api='parse', cap=1), range(2, T(tier, 2, 3) + 1), bud,
               'response start line + "N" + {n} symbolic bytes + ": v" CRLFCRLF + 40 body bytes', vs)
